@@ -202,7 +202,8 @@ func (b *baseExecutor) buildRecordImages(rowsi driver.Rows, tableMetaData *types
 func (b *baseExecutor) getNeedColumns(meta *types.TableMeta, columns []string, dbType types.DBType) []string {
 	var needUpdateColumns []string
 	if undo.UndoConfig.OnlyCareUpdateColumns && columns != nil && len(columns) > 0 {
-		needUpdateColumns = columns
+		// (a list of its own: the names are escaped below, in place)
+		needUpdateColumns = append([]string(nil), columns...)
 		if !b.containsPKByName(meta, columns) {
 			pkNames := meta.GetPrimaryKeyOnlyName()
 			if pkNames != nil && len(pkNames) > 0 {
@@ -213,7 +214,8 @@ func (b *baseExecutor) getNeedColumns(meta *types.TableMeta, columns []string, d
 		}
 		// todo If it contains onUpdate columns, add onUpdate columns
 	} else {
-		needUpdateColumns = meta.ColumnNames
+		// a copy: the cached table meta is shared by every statement on the table, also concurrent ones
+		needUpdateColumns = append([]string(nil), meta.ColumnNames...)
 	}
 
 	for i := range needUpdateColumns {
